@@ -394,6 +394,15 @@ def gen_dec(ctx):
 def gen_v1(ctx):
     rng = ctx.rng
     masters = [(1).to_bytes(32, "big"), (NORD - 1).to_bytes(32, "big"), b"\0" * 12 + rb(rng, 20), rb(rng, 32), rb(rng, 32)]
+    # directed: master keys k (searched over k = 2, 3, ...) whose public X coordinate starts with 0x04 (the byte the
+    # uncompressed-key prefix has), 0x00, 0x02 or 0x03
+    Pt, want_first, k = K1.add(K1.G, K1.G), {4: 0, 0: 0, 2: 0, 3: 0}, 2
+    while k < 6000 and any(v < (1 if ctx.quick else 2) for v in want_first.values()):
+        fb = K1.ser_u(Pt)[1]
+        if fb in want_first and want_first[fb] < (1 if ctx.quick else 2):
+            want_first[fb] += 1
+            masters.append(k.to_bytes(32, "big"))
+        Pt, k = K1.add(Pt, K1.G), k + 1
     for mk in masters:
         vals = idx_values(rng)
         pairs = [(c, i) for c in vals[:7] for i in vals[:7]] if not ctx.quick else \
